@@ -92,8 +92,39 @@ Section Top.
     wf inp -> gen cfg inp = Ok e -> prepare cfg inp = Some sp ->
     den (user_names inp) msem dotsem callsem awaitsem e empty_env = spec msem dotsem callsem awaitsem sp.
   Proof. intros cfg. apply refine_sync. reflexivity. Qed.
+
+  (* the async kinds: join_async!, try_join_async!, join_async_spawn!, try_join_async_spawn!
+     (value level of Denote/Std: join!/try_join! over never-pending children, awaited in order) *)
+  Theorem refine_async cfg inp e sp :
+    is_async cfg = true ->
+    wf inp -> gen cfg inp = Ok e -> prepare cfg inp = Some sp ->
+    den (user_names inp) msem dotsem callsem awaitsem e empty_env = spec msem dotsem callsem awaitsem sp.
+  Proof.
+    intros Ha Hwf Hg Hp.
+    destruct (gen_inv cfg inp e Hg) as (fcp & j & Hj & Ho & Hpats).
+    pose proof (rel_of_gen cfg inp fcp j sp Hwf Hj Hp) as HR.
+    assert (Hun : user_names inp = flat_map opt_list (map pat_name (j_pats j))).
+    { rewrite Hpats. apply user_names_pats. }
+    eapply gen_output_async with (cfg := cfg) (j := j); try eassumption.
+    intros ss se Hgs ρ st HI.
+    assert (Hstep : step_hyp (user_names inp) msem dotsem callsem awaitsem cfg j sp).
+    { eapply step_async; eassumption. }
+    destruct (is_try cfg) eqn:Ht.
+    - eapply steps_try_async with (cfg := cfg); try eassumption; reflexivity.
+    - eapply steps_nontry with (cfg := cfg); try eassumption; reflexivity.
+  Qed.
+
+  (* THE REFINEMENT THEOREM: all eight macro kinds, all inputs *)
+  Theorem gen_refines_spec cfg inp e sp :
+    wf inp -> gen cfg inp = Ok e -> prepare cfg inp = Some sp ->
+    den (user_names inp) msem dotsem callsem awaitsem e empty_env = spec msem dotsem callsem awaitsem sp.
+  Proof.
+    destruct (is_async cfg) eqn:Ha; [apply refine_async|apply refine_sync]; exact Ha.
+  Qed.
 End Top.
 
 Print Assumptions refine_join.
 Print Assumptions refine_try_join.
 Print Assumptions refine_sync.
+Print Assumptions refine_async.
+Print Assumptions gen_refines_spec.
